@@ -29,15 +29,22 @@ func h13a(n int) {
 	vxCover("end")
 }
 
-func H13bQ() { h13b(2) }
-func H13bT() { h13b(3) }
+func H13bQ() { h13b(2, 2) }
+func H13bT() { h13b(2, vxChoice(3)) }
 
 // h13b: every Offset/Extent MultipleMatch reports lies inside the (normalised) unknown string and
 // every confidence lies in (0,1], for unknown strings with symbolic bytes (incl. invalid UTF-8).
-func h13b(n int) {
+func h13b(n int, where int) {
 	c := New(DefaultConfidenceThreshold)
 	c.AddValue("one", "foo bar baz")
-	u := "foo bar baz" + vxString(n)
+	x := vxString(n)
+	u := "foo bar baz" + x // the symbolic bytes follow, precede or sit inside the copy
+	switch where {
+	case 0:
+		u = x + "foo bar baz"
+	case 1:
+		u = "foo bar" + x + " baz foo bar baz"
+	}
 	for _, m := range c.MultipleMatch(u) {
 		vxAssert("offset-inside", m.Offset >= 0 && m.Extent >= 0 && m.Offset+m.Extent <= len(u))
 		vxAssert("confidence-range", m.Confidence > 0 && m.Confidence <= 1.0)
